@@ -427,6 +427,10 @@ func (pr *Program) Source() string {
 	}
 	p.line(0, "")
 	for _, a := range pr.Aliases {
+		if a.Def != "" {
+			p.line(0, "Wir definieren "+map[string]string{"m": "einen", "f": "eine", "n": "ein"}[a.G()]+" "+a.Def+" als "+a.Under().Akk()+".")
+			continue
+		}
 		base := *a
 		base.Alias = ""
 		p.line(0, "Wir nennen "+(&base).Akk()+" auch "+map[string]string{"m": "einen", "f": "eine", "n": "ein"}[a.G()]+" "+a.Alias+".")
